@@ -23,6 +23,10 @@
 (*             the derivative) agrees with "some member begins with c"     *)
 (*             (C18, in the design; defect F8 is a counterexample to the   *)
 (*             pre-repair rule)                                            *)
+(*   MatcherOk the search loop of matcher.rs (derive until nullable or      *)
+(*             syntactically empty, next start otherwise) run on the model  *)
+(*             computes str.replace_re / replace_re_all as SMT-LIB defines  *)
+(*             them (C10, in the design)                                    *)
 (*   finite    TLC terminates: the derivative closure of every term is     *)
 (*             finite under these normal forms (the design argument behind *)
 (*             "iter_derivatives terminates", C19) - without any help from *)
@@ -34,20 +38,35 @@ EXTENDS MC_Regex, Constructors
 VARIABLES r, s, t
 cvars == <<r, s, t>>
 
-InitC == l = 0 /\ \E n \in 0..NT - 1 : r = n /\ s = RInit(TermAt(n)) /\ t = BuildN(TermAt(n))
-NextC == \E c \in Sigma : /\ r' = r /\ l' = l
-                          /\ s' = RStep(TermAt(r), s, c)
-                          /\ t' = DerivN(t, c)
-Wf     == WfN(t)
-NullOk == NulN(t) = RFinal(TermAt(r), s)
+(* Seeds are loaded in Next (TLC computes initial states serially and evaluates the invariants on them): K loader *)
+(* chains (r = -1) walk over the seed indices; each loader state spawns the seed state of its index.               *)
+InitC == l \in 0..K - 1 /\ r = -1 /\ s = 0 /\ t = NNone
+LoadC == /\ r = -1 /\ l < NT
+         /\ \/ (r' = l /\ l' = l /\ s' = RInit(TermAt(l)) /\ t' = BuildN(TermAt(l)))
+            \/ (r' = -1 /\ l' = l + K /\ s' = s /\ t' = t)
+StepC == /\ r >= 0
+         /\ \E c \in Sigma : /\ r' = r /\ l' = l
+                               /\ s' = RStep(TermAt(r), s, c)
+                               /\ t' = DerivN(t, c)
+NextC == LoadC \/ StepC
+Wf     == r >= 0 => WfN(t)
+NullOk == r >= 0 => NulN(t) = RFinal(TermAt(r), s)
 \* complement is an involution without fixed points on every term the model can reach (C07, in the design)
-Involution == MkNot(MkNot(t)) = t /\ MkNot(t) # t /\ WfN(MkNot(t)) /\ NulN(MkNot(t)) = ~NulN(t)
+Involution == r >= 0 => MkNot(MkNot(t)) = t /\ MkNot(t) # t /\ WfN(MkNot(t)) /\ NulN(MkNot(t)) = ~NulN(t)
 \* two characters of one modelled derivative class (or both in the complementary class) have the same modelled
 \* derivative: the class computation is consistent with the derivative rules (C03's uniformity, in the design)
 ClsOf(P, x) == {p \in P : p[1] <= x /\ x <= p[2]}
-ClassUniform == \A x, y \in Sigma : ClsOf(ClassesN(t), x) = ClsOf(ClassesN(t), y) => DerivN(t, x) = DerivN(t, y)
+ClassUniform == r >= 0 => \A x, y \in Sigma : ClsOf(ClassesN(t), x) = ClsOf(ClassesN(t), y) => DerivN(t, x) = DerivN(t, y)
 \* the case analysis of start_char agrees with the semantics: some member of the language of t begins with c
 \* (the language of t is the residual language of the construction at state s)
-StartOk == \A c \in Sigma : StartN(t, c) = NonEmptyFrom(TermAt(r), TermReps(TermAt(r)), RStep(TermAt(r), s, c))
-Seeds  == TLCGet("stats").distinct >= NT
+StartOk == r >= 0 => \A c \in Sigma : StartN(t, c) = NonEmptyFrom(TermAt(r), TermReps(TermAt(r)), RStep(TermAt(r), s, c))
+\* the search loop of the matcher, run on the model terms, computes SMT-LIB's replace_re / replace_re_all (the
+\* declarative leftmost-shortest definitions of module Regex) on every subject of length <= 3; checked on the
+\* seed terms only (l = 0 there and the term is the construction itself)
+ReplaceSubjects == WordsOf(3)
+MatcherOk == (r >= 0 /\ s = RInit(TermAt(r)) /\ t = BuildN(TermAt(r))) =>
+               \A w \in ReplaceSubjects :
+                  /\ ReplaceReN(w, t, <<9>>) = ReplaceRe(w, TermAt(r), <<9>>)
+                  /\ ReplaceReAllN(w, t, <<9>>) = ReplaceReAll(w, TermAt(r), <<9>>)
+
 =============================================================================
